@@ -45,12 +45,28 @@ class LinkWriter(FakeWriter):
     def __init__(self, loop, link: Link):
         super().__init__(loop, link.name)
         self.link = link
+        link.writer = self
         self.auto_drain = True
+        self.waiters: List[Any] = []
 
     def write(self, data: bytes):
         super().write(data)
         self.link.net.seq += 1
         self.link.queue.append((self.link.net.seq, bytes(data)))
+
+    async def drain(self):
+        # back-pressure: like a real transport above its high-water mark, drain() returns only when the peer has taken
+        # what was written (the pump releases the waiters when the link's queue is empty)
+        if self.link.net.backpressure and self.link.queue:
+            fut = self.loop.create_future()
+            self.waiters.append(fut)
+            await fut
+
+    def release(self):
+        for fut in self.waiters:
+            if not fut.done():
+                fut.set_result(None)
+        del self.waiters[:]
 
 
 class Net:
@@ -59,6 +75,7 @@ class Net:
         self.seq = 0
         self.links: List[Link] = []
         self.delivered_bytes = 0
+        self.backpressure = False
 
     def connection(self, name: str):
         """returns (client-side reader, client-side writer, server-side reader, server-side writer)"""
@@ -75,6 +92,9 @@ class Net:
         for _ in range(max_rounds):
             self.loop.settle()
             live = [l for l in self.links if l.queue]
+            for l in self.links:
+                if not l.queue and getattr(l, "writer", None) is not None and l.writer.waiters:
+                    l.writer.release()
             if not live:
                 if not self.loop.has_ready():
                     return True
@@ -284,6 +304,13 @@ class SysWorld:
             self.add_snooper(op["owner"], op["target"], None if op["name"] == NONE else op["name"])
         elif o == "rehandshake":
             self.run(lambda: self.clients[op["client"]].handshake())
+        elif o == "burst":
+            # several driver-side operations back to back, the loop running in between but nothing delivered yet: the
+            # connections are under back-pressure while the later messages are routed
+            for sub in op["ops"]:
+                self.dw.apply(sub)
+                for _ in range(op.get("ticks", 2)):
+                    self.loop.tick()
         else:
             self.dw.apply(op)
         quiet = self.net.pump(self.mode, self.frag)
@@ -308,6 +335,7 @@ def c01_trace(r, tier: str) -> List[dict]:
     dep["hs"] = []
     nclients = r.choice([1, 1, 2])
     w = SysWorld(dep, r, nclients=nclients)
+    w.net.backpressure = r.random() < 0.3          # drain() returns only once the peer has taken the data
     try:
         mode = r.choice(["fifo", "free"])
         frag = r.choice(["whole", "byte", "1024", "random", "random"])
@@ -399,9 +427,10 @@ def c01_trace(r, tier: str) -> List[dict]:
 # ------------------------------------------------------------------ C08
 def blob_dep() -> dict:
     return {"vecs": [{"dev": "CAM", "name": "IMG", "kind": "blob", "rule": "", "grp": 1, "perm": "rw", "elems": ["frame", "thumb"], "een": [True, True]},
-                     {"dev": "CAM", "name": "NOTE", "kind": "text", "rule": "", "grp": 1, "perm": "rw", "elems": ["t"], "een": [True]}],
-            "grps": [{"dev": "CAM", "name": "MAIN"}], "hs": [], "devorder": ["CAM"], "val0": [[NONE, NONE], ["x"]], "vst0": ["Ok", "Ok"],
-            "ven0": [True, True], "gen0": [True]}
+                     {"dev": "CAM", "name": "NOTE", "kind": "text", "rule": "", "grp": 1, "perm": "rw", "elems": ["t"], "een": [True]},
+                     {"dev": "CAM", "name": "AUX", "kind": "blob", "rule": "", "grp": 1, "perm": "ro", "elems": ["small"], "een": [True]}],
+            "grps": [{"dev": "CAM", "name": "MAIN"}], "hs": [], "devorder": ["CAM"], "val0": [[NONE, NONE], ["x"], [NONE]], "vst0": ["Ok", "Ok", "Ok"],
+            "ven0": [True, True, True], "gen0": [True]}
 
 
 def payload(n: int, salt: int) -> bytes:
@@ -415,7 +444,7 @@ def c08_runs(r, tier: str) -> List[List[dict]]:
     if tier == "thorough":
         lengths = list(range(0, 1701)) + list(range(1701, 4097, 5)) + [65536, 1 << 20, 4 << 20]
     else:
-        lengths = [0, 1, 2, 1023, 1024, 1025, 70001] + r.sample(lengths, 33)
+        lengths = [0, 1, 2, 1023, 1024, 1025, 70001, 70001, 150000] + r.sample(lengths, 33)
     for n in lengths:
         frag = r.choice(["1024", "1024", "byte" if n < 3000 else "1024", "random"]) if n <= 10000 else "1024"
         w = SysWorld(blob_dep(), r, nclients=1, raw_policies=(None, "Never", "Also", "Only"))
@@ -425,9 +454,17 @@ def c08_runs(r, tier: str) -> List[List[dict]]:
             fmt = r.choice([".fits", ".fits.z", ".jpg", ""])
             DV.BLOBS["P"] = (payload(n, 1), fmt)
             DV.BLOBS["Q"] = (payload(max(0, n - 1), 2), ".thumb")
+            DV.BLOBS["T"] = (payload(10, 3), ".thumb")          # a small BLOB routed right behind the large one
             wl = lambda k: len(base64.b64encode(payload(k, 1))) + 160      # characters of the set/new BLOB message on the wire (approx.)
-            evs.append(w.apply({"o": "assign", "v": 1, "e": 1, "x": "P", "len": n, "wirelen": wl(n)}))       # driver -> clients
-            evs.append(w.apply({"o": "assign", "v": 2, "e": 1, "x": "y"}))                 # traffic after the BLOB
+            w.net.backpressure = bp = (n > 60000 or r.random() < 0.4)
+            if bp:
+                # the BLOB and the traffic after it are routed while the connections are still busy with the BLOB
+                evs.append(w.apply({"o": "burst", "len": n, "wirelen": wl(n), "bp": 1, "ticks": r.choice([1, 2, 3]),
+                                    "ops": [{"o": "assign", "v": 1, "e": 1, "x": "P"}, {"o": "assign", "v": 3, "e": 1, "x": "T"},
+                                            {"o": "assign", "v": 2, "e": 1, "x": "y"}]}))
+            else:
+                evs.append(w.apply({"o": "assign", "v": 1, "e": 1, "x": "P", "len": n, "wirelen": wl(n)}))       # driver -> clients
+                evs.append(w.apply({"o": "assign", "v": 2, "e": 1, "x": "y"}))                 # traffic after the BLOB
             up = {"o": "client-write", "client": 0, "v": 1, "vals": [["thumb", "Q"]], "len": max(0, n - 1), "wirelen": wl(max(0, n - 1))}
             evs.append(w.apply(up))                                                         # client -> driver (through the TCP server handler)
             evs.append(w.apply({"o": "assign", "v": 2, "e": 1, "x": "z"}))
@@ -436,6 +473,7 @@ def c08_runs(r, tier: str) -> List[List[dict]]:
             w.close()
             DV.BLOBS.pop("P", None)
             DV.BLOBS.pop("Q", None)
+            DV.BLOBS.pop("T", None)
     return out
 
 
